@@ -116,6 +116,14 @@ func (m *ModelServer) ListPublications(_ context.Context, request *traits.ListPu
 		nextIndex = sort.Search(len(sortedItems), func(i int) bool {
 			return sortedItems[i].Id > lastKey
 		})
+		// the listing is in the collection's order, which an id interceptor can make differ from the order of the
+		// ids themselves: carry on right after the item the last page ended with whenever it is still there
+		for i, item := range sortedItems {
+			if item.Id == lastKey {
+				nextIndex = i + 1
+				break
+			}
+		}
 	}
 
 	result := &traits.ListPublicationsResponse{
